@@ -669,7 +669,9 @@ pub fn random_schema(rng: &mut Rng, k: &SchemaKnobs) -> ASchema {
                         // an implementor may NARROW an inherited field (`name: String` -> `name: String!`, covariance)
                         // and may deprecate it on its own, or with another reason than the interface
                         let mut own = f.clone();
-                        if rng.chance(15) && !own.ty.is_non_null() {
+                        // (leaf-typed fields only: a non-null LINK would make a recursive fragment through it unsatisfiable -
+                        // no finite response exists - and the payload generator would not terminate)
+                        if rng.chance(15) && !own.ty.is_non_null() && leaf_types.iter().any(|l| l == own.ty.base()) {
                             own.ty = ATy::NonNull(Box::new(own.ty));
                         }
                         if k.deprecations && rng.chance(10) {
